@@ -159,7 +159,7 @@ async fn c28_keyless(ctx: Ctx, depth: usize) {
 }
 
 pub fn c28(args: &Args) -> Vec<Scenario> {
-    let d = if args.thorough() { 5 } else { 4 };
+    let d = if args.thorough() { 6 } else { 5 };
     vec![
         Scenario::new(format!("C28.keyed[autoenable=true,depth={d}]"), 99, move |ctx| c28_keyed(ctx, d, true)),
         Scenario::new(format!("C28.keyed[autoenable=false,depth={d}]"), 99, move |ctx| c28_keyed(ctx, d, false)),
